@@ -29,7 +29,10 @@ THEOREMS = [
     'IblVerif.C14.channel_perm_tie_counterexample',
     'IblVerif.C14.batch_independent',
 ]
-RULE = ('(a) seeded structured batches arr[N, T, C] of integer- or dyadic-valued float32/float64 waveforms, T in 10..200 (boundary-biased: '
+RULE = ('(a) seeded structured batches arr[N, T, C] of integer- or dyadic-valued waveforms held as float32 / float64 / int16 / int32 / int64 '
+        '(dtype, memory layout C / F / transposed view / strided view, positional vs keyword spelling, return_peak_channel, and the scalar '
+        'types of fs and recovery_duration_ms are drawn independently of the values; int16 up to full scale +-32767; odd peaks with flank '
+        'samples at floor and ceil of |peak|/2), T in 10..200 (boundary-biased: '
         '10, 11, 200, short windows), C in 1..40 (biased to 1, 2, 40), N in 1..10: synthetic biphasic spikes of either polarity with a tip lobe, '
         'spatial decay over channels and integer noise; peak planted at every position incl. samples 1, 2, T-3..T-1 and T-k-1..T-k+1; '
         'planted boundaries: trough exactly at 2/3 of the peak (+-1), equal maxima in time and across channels, no half-peak sample '
@@ -57,6 +60,11 @@ ASSUMPTIONS = [
     'former finding F21 (positive largest deflection after which the trace never falls below 2/3 of it, e.g. a positive peak on the last '
     'sample) is repaired in /repo (3bee7fb): that class is generated (plant stays-high, peaks on the last sample, ternary box) and ALL '
     'columns are compared and demanded on it like on any other input',
+    'input forms: integer dtypes carry integer values without NaN; finding F22a excludes integer arrays containing the most negative value of '
+    'their dtype (np.abs overflow: never generated) and F22b excludes the slope columns of integer-typed rows whose slope numerator leaves '
+    'the dtype (not compared / not demanded there); read-only arrays are not a supported form (the code zeroes NaN in place and raises '
+    'ValueError: assignment destination is read-only); narrow numpy integers (int16, uint8) are used for fs / recovery_duration_ms only when '
+    'recovery_duration_ms * fs stays inside that type (NumPy scalar arithmetic wraps otherwise); unsigned waveform dtypes are not generated',
 ]
 TRUSTED = [
     'np.argmax / np.nanargmax return the first maximal index; np.nanargmax raises ValueError on an all-NaN row (NumPy documentation)',
@@ -86,16 +94,67 @@ INT_COLS = {'peak_trace_idx', 'peak_time_idx', 'trough_time_idx', 'tip_time_idx'
 # ---------------------------------------------------------------------------------------------
 # running the real code
 # ---------------------------------------------------------------------------------------------
-def _features(arr, _copy=True, **kw):
-    """compute_spike_features (on a private copy unless _copy=False); returns (DataFrame | None, error kind | None)."""
+PLAIN_FORM = {'layout': 'C', 'spelling': 'keywords', 'fs_type': 'int', 'rd_type': 'float'}
+_SCALAR = {'int': int, 'float': float, 'np.int16': np.int16, 'np.int32': np.int32, 'np.uint8': np.uint8,
+           'np.float32': np.float32, 'np.float64': np.float64}
+
+
+def _apply_layout(a, layout):
+    """the same values in another memory layout"""
+    if layout == 'F':
+        return np.asfortranarray(a)
+    if layout == 'transposed-view':          # non-contiguous view of an array stored with the axes reversed
+        rev = tuple(range(a.ndim))[::-1]
+        return np.ascontiguousarray(a.transpose(rev)).transpose(rev)
+    if layout == 'strided-view':             # every other element of a larger array
+        big = np.zeros(tuple(2 * n for n in a.shape), a.dtype)
+        sl = tuple(slice(None, None, 2) for _ in a.shape)
+        big[sl] = a
+        return big[sl]
+    return a
+
+
+def _features(arr, _copy=True, _form=None, **kw):
+    """compute_spike_features on `arr` (a private copy unless _copy=False) in the call form `_form` (memory layout, positional /
+    keyword spelling in the order of today's signature (arr_in, fs, recovery_duration_ms, return_peak_channel), scalar types of
+    fs and recovery_duration_ms); returns (DataFrame | None, error | None).  With the option return_peak_channel the returned
+    traces are kept in `_features.peak_traces`; the array actually handed over is `_features.passed`."""
     from ibldsp import waveforms
+    form = _form or PLAIN_FORM
+    a = np.array(arr, copy=True) if _copy else arr
+    a = _apply_layout(a, form.get('layout', 'C'))
+    _features.passed, _features.peak_traces = a, None
+    kw = dict(kw)
+    if 'fs' in kw:
+        kw['fs'] = _SCALAR[form.get('fs_type', 'int')](kw['fs'])
+    if 'recovery_duration_ms' in kw:
+        kw['recovery_duration_ms'] = _SCALAR[form.get('rd_type', 'float')](kw['recovery_duration_ms'])
+    sp = form.get('spelling', 'keywords')
+    rpc = sp.endswith('+return_peak_channel')
     with warnings.catch_warnings():
         warnings.simplefilter('ignore')
         with np.errstate(all='ignore'):
             try:
-                return waveforms.compute_spike_features(np.array(arr, copy=True) if _copy else arr, **kw), None
+                if sp.startswith('positional') and kw:
+                    res = waveforms.compute_spike_features(a, kw['fs'], kw['recovery_duration_ms'], *((True,) if rpc else ()))
+                else:
+                    res = waveforms.compute_spike_features(a, **kw, **({'return_peak_channel': True} if rpc else {}))
+                if rpc:
+                    res, _features.peak_traces = res
+                return res, None
             except Exception as e:  # compared by exception type only (messages may be reworded)
                 return None, f'err {type(e).__name__}'
+
+
+def _peak_traces_ok(arr3, df):
+    """documented option return_peak_channel: the second result holds, per waveform, the trace of the peak channel"""
+    pk = _features.peak_traces
+    if pk is None:
+        return True
+    pk = np.asarray(pk, dtype=float)
+    x = np.where(np.isnan(arr3.astype(float)), 0.0, arr3.astype(float))
+    exp = np.stack([x[n, :, int(df['peak_trace_idx'].iloc[n])] for n in range(x.shape[0])])
+    return pk.shape == exp.shape and bool(np.array_equal(pk, exp))
 
 
 MODEL_ERR = {'err allNaN': 'err ValueError', 'err offsetOOB': 'err ValueError', 'err zeroSize': 'err ValueError',
@@ -179,9 +238,11 @@ def _pick(rng, options, weights=None):
     return options[int(rng.choice(len(options), p=w))]
 
 
-def _spike(rng, T, C, k, plant):
+def _spike(rng, T, C, k, plant, A=None):
     pol = 1 if rng.random() < 0.5 else -1
-    A = 6 * int(rng.integers(5, 500))
+    A = A or 6 * int(rng.integers(5, 500))
+    if plant == 'half-odd' and A % 2 == 0:
+        A += 1                               # odd peak: |peak|/2 is not an integer
     pos_opts = [int(rng.integers(1, T)), 1, 2, T - 1, T - 2, T - 3, T - 1 - k, T - k, T - k + 1, T // 2]
     p0 = int(np.clip(_pick(rng, pos_opts, [8, 1, 1, 2, 1, 1, 1, 1, 1, 3]), 1, T - 1))
     c0 = int(_pick(rng, [int(rng.integers(0, C)), 0, C - 1], [4, 1, 1]))
@@ -223,6 +284,16 @@ def _spike(rng, T, C, k, plant):
         if p0 + 1 < T:
             x[p0 + 1, c0] = pol * A // 2
         x[p0 - 1, c0] = pol * A // 2
+    elif plant == 'half-odd':                 # flank samples at floor(|peak|/2) (within half) and ceil(|peak|/2) (not within)
+        lo, hi = A // 2, A // 2 + 1
+        side = rng.random() < 0.5
+        if p0 + 1 < T:
+            x[p0 + 1, c0] = pol * (lo if side else hi)
+            if p0 + 2 < T:
+                x[p0 + 2, c0] = pol * (hi if side else lo)
+        x[p0 - 1, c0] = pol * (hi if side else lo)
+        if p0 - 2 >= 0:
+            x[p0 - 2, c0] = pol * (lo if side else hi)
     return x, tag
 
 
@@ -236,26 +307,52 @@ def gen_batch(rng, quick=True):
     T = int(_pick(rng, [int(rng.integers(10, 201)), int(rng.integers(10, 40)), 10, 11, 200], [3, 6, 1, 1, 0.3 if quick else 1]))
     C = int(_pick(rng, [int(rng.integers(1, 41)), int(rng.integers(1, 8)), 1, 2, 40], [2, 6, 2, 1, 0.3 if quick else 1]))
     N = int(_pick(rng, [int(rng.integers(1, 11)), 1, 2], [5, 2, 1]))
+    # the FORM of the call is drawn independently of the VALUES
+    dtype = _pick(rng, ['float32', 'float64', 'int16', 'int32', 'int64'], [3, 2, 1.5, 1.5, 1])
+    is_int = dtype.startswith('int')
+    form = {'layout': _pick(rng, ['C', 'F', 'transposed-view', 'strided-view'], [4, 1, 1, 1]), 'spelling': 'keywords',
+            'fs_type': 'int', 'rd_type': 'float'}
     kkind = _pick(rng, ['default', 'small', 'edge', 'any'], [3, 3, 2, 1])
     if kkind == 'default':
         fs, rd, k, kw = 30000, 0.16, 5, {}
+        form['spelling'] = _pick(rng, ['keywords', 'keywords+return_peak_channel'], [4, 1])
     else:
         fs = int(_pick(rng, [30000, 1000, 2500, 20000]))
         k = {'small': int(rng.integers(0, 9)), 'edge': int(_pick(rng, [T - 2, T - 1, T, T + 1])), 'any': int(rng.integers(0, T))}[kkind]
-        for frac in (float(rng.uniform(-0.4, 0.4)), 0.25, 0.0):
-            rd = (k + frac) * 1000 / fs
-            if rd >= 0 and _k_of(fs, rd) == k:
-                break
+        if rng.random() < 0.25:               # offset given as an integer number of milliseconds
+            fs, rd = 1000, k
+            form['rd_type'] = _pick(rng, ['int', 'np.uint8', 'np.int16', 'float', 'np.float64'])
+            form['fs_type'] = _pick(rng, ['int', 'float', 'np.float64'])
+        else:
+            for frac in (float(rng.uniform(-0.4, 0.4)), 0.25, 0.0):
+                rd = (k + frac) * 1000 / fs
+                if rd >= 0 and _k_of(fs, rd) == k:
+                    break
+            form['rd_type'] = _pick(rng, ['float', 'np.float64', 'np.float32'], [3, 1, 1])
+            form['fs_type'] = _pick(rng, ['int', 'float', 'np.int32', 'np.float64', 'np.int16'], [3, 1, 1, 1, 1])
+        form['spelling'] = _pick(rng, ['keywords', 'positional', 'positional+return_peak_channel'], [3, 2, 1])
+        try:                                  # the typed scalars must still mean the same offset
+            with np.errstate(all='ignore'), warnings.catch_warnings():
+                warnings.simplefilter('ignore')
+                ok = (_k_of(_SCALAR[form['fs_type']](fs), _SCALAR[form['rd_type']](rd)) == k
+                      and float(_SCALAR[form['fs_type']](fs)) == fs)
+        except (OverflowError, ValueError):
+            ok = False
+        if not ok:
+            form['fs_type'], form['rd_type'] = 'int', ('int' if isinstance(rd, int) else 'float')
         kw = {'fs': fs, 'recovery_duration_ms': rd}
     err_batch = rng.random() < 0.08          # keep one waveform whose extremum is on sample 0
-    plants = ['spike', 'ratio', 'tie-time', 'tie-chan', 'stays-high', 'no-half-pre', 'no-half-post', 'half-exact', 'small']
-    pw = [8, 3, 1.5, 1.5, 1, 1, 1, 1, 2]
+    plants = ['spike', 'ratio', 'tie-time', 'tie-chan', 'stays-high', 'no-half-pre', 'no-half-post', 'half-exact', 'half-odd', 'small']
+    pw = [8, 3, 1.5, 1.5, 1, 1, 1, 1, 2.5, 2]
     waves, tags = [], set()
     for n in range(N):
         for attempt in range(50):
             plant = _pick(rng, plants, pw)
-            x, tag = _small(rng, T, C) if plant == 'small' else _spike(rng, T, C, k, plant)
-            nan_kind = _pick(rng, ['none', 'chan', 'partial'], [7, 2, 1])
+            amp = 32767 if (dtype == 'int16' and rng.random() < 0.15) else None      # full-scale int16 counts
+            x, tag = _small(rng, T, C) if plant == 'small' else _spike(rng, T, C, k, plant, amp)
+            if amp and plant != 'small':
+                tag += '+int16-fullscale'
+            nan_kind = 'none' if is_int else _pick(rng, ['none', 'chan', 'partial'], [7, 2, 1])
             if nan_kind == 'chan' and C > 1:
                 keep = _extremum(x)[0]
                 for c in rng.choice(C, size=int(rng.integers(1, max(2, C // 2 + 1))), replace=False):
@@ -277,15 +374,17 @@ def gen_batch(rng, quick=True):
     # moderate dyadic scales are given to the model as they are; the extreme ones (Volt-scale data = integers * 2^-25, i.e.
     # 3e-8 .. 9e-5, and scales down to 2^-40 / up to 2^60) reach the real code only: the model runs on the integers and its
     # value columns are multiplied by the scale afterwards, which `scale_equivariant` justifies (exact for powers of two)
-    sc = float(_pick(rng, [1, 0.25, 0.5, 1024, 2.0 ** -25, 2.0 ** -40, 2.0 ** -27, 2.0 ** -13, 2.0 ** 30, 2.0 ** 60],
-                     [8, 1, 1, 1, 1.5, 0.5, 0.5, 0.5, 0.5, 0.5]))
+    if is_int:
+        sc = float(_pick(rng, [1, 1024], [6, 1])) if dtype != 'int16' else 1.0
+    else:
+        sc = float(_pick(rng, [1, 0.25, 0.5, 1024, 2.0 ** -25, 2.0 ** -40, 2.0 ** -27, 2.0 ** -13, 2.0 ** 30, 2.0 ** 60],
+                         [8, 1, 1, 1, 1.5, 0.5, 0.5, 0.5, 0.5, 0.5]))
     extreme = not (2.0 ** -3 <= sc <= 2.0 ** 11)
-    dtype = np.float32 if rng.random() < 0.6 else np.float64
     arr = (base * sc).astype(dtype)
     two_d = bool(N == 1 and rng.random() < 0.3)
     return {'arr': arr, 'marr': base if extreme else arr, 'mscale': Fraction(sc) if extreme else Fraction(1),
             'kw': kw, 'k': k, 'fs': fs, 'T': T, 'C': C, 'N': N, 'tags': sorted(tags), 'two_d': two_d,
-            'scale': sc, 'dtype': np.dtype(dtype).name}
+            'scale': sc, 'dtype': np.dtype(dtype).name, 'form': form}
 
 
 # ---------------------------------------------------------------------------------------------
@@ -350,13 +449,13 @@ class _Stats:
         self.c = __import__('collections').Counter()
 
 
-def _compare_batch(ctx, st, op, desc, arr, call, kw, k, T, dtype, ans, tags, mscale=Fraction(1)):
+def _compare_batch(ctx, st, op, desc, arr, call, kw, k, T, dtype, ans, tags, mscale=Fraction(1), form=None):
     """Run the real code on `call` (the array handed to compute_spike_features; `arr` is the same data as (N, T, C)),
     compare with the model's answer `ans`, register the case."""
     N = arr.shape[0]
     before_nan = bool(np.isnan(call).any())
-    passed = np.array(call, copy=True)
-    df, err = _features(passed, _copy=False, **kw)
+    df, err = _features(call, _form=form, **kw)
+    passed = _features.passed
     rel = 2e-6 if dtype == 'float32' else 1e-12
     nontriv = False
     if df is None:
@@ -374,13 +473,20 @@ def _compare_batch(ctx, st, op, desc, arr, call, kw, k, T, dtype, ans, tags, msc
             for n, ((iex, ide), (mex, mde)) in enumerate(zip(irows, mrows)):
                 sh = _stays_high(arr[n])
                 skip = set()
-                bad = [c for c in DER_COLS if not _close(ide[c], mde[c], rel)]
+                if arr.dtype.kind == 'i':      # finding F22: the slope numerators are formed in the integer dtype of the data and wrap
+                    lim, v = np.iinfo(arr.dtype).max, {c: Fraction(mex[c]) for c in VAL_COLS}
+                    for c, (p, q) in {'depolarisation_slope': ('peak_val', 'tip_val'), 'repolarisation_slope': ('trough_val', 'peak_val'),
+                                      'recovery_slope': ('recovery_val', 'trough_val')}.items():
+                        if abs(v[p] - v[q]) > lim:
+                            skip.add(c)
+                            st.c['F22: slope numerator beyond the integer dtype (column not compared)'] += 1
+                bad = [c for c in DER_COLS if c not in skip and not _close(ide[c], mde[c], rel)]
                 rt = mde['peak_to_trough_ratio']
                 if rt not in ('nan', 'inf', '-inf') and Fraction(rt) > 0:
                     if not abs(ide['peak_to_trough_ratio_log'] - math.log(Fraction(rt))) <= 1e-5:
                         bad.append('peak_to_trough_ratio_log')
-                ip.append(_canon(iex, skip) + (' derived:' + ','.join(f'{c}={ide[c]!r}' for c in bad) if bad else ''))
-                mp.append(_canon(mex, skip) + (' derived:' + ','.join(f'{c}={mde.get(c)}' for c in bad) if bad else ''))
+                ip.append(_canon(iex, set()) + (' derived:' + ','.join(f'{c}={ide[c]!r}' for c in bad) if bad else ''))
+                mp.append(_canon(mex, set()) + (' derived:' + ','.join(f'{c}={mde.get(c)}' for c in bad) if bad else ''))
                 # per-waveform statistics for the evidence
                 st.rows += 1
                 pt, trg = int(iex['peak_time_idx']), int(iex['trough_time_idx'])
@@ -404,6 +510,8 @@ def _compare_batch(ctx, st, op, desc, arr, call, kw, k, T, dtype, ans, tags, msc
         # the in-place NaN → 0 of _validate_arr_in is observable on the caller's array
         if before_nan and np.isnan(passed).any():
             impl_s += ' input-still-has-NaN'
+        if not _peak_traces_ok(arr, df):
+            impl_s += ' return_peak_channel-traces-differ-from-the-peak-channel'
     ctx.compare(op, desc, impl_s, model_s, nontrivial=nontriv, tags=tuple(tags))
 
 
@@ -420,7 +528,7 @@ def correspondence(ctx):
         arr = g['arr']
         call = arr[0] if g['two_d'] else arr
         desc = {'case': i, 'N': g['N'], 'T': g['T'], 'C': g['C'], 'k': g['k'], 'fs': g['fs'], 'dtype': g['dtype'],
-                'two_d': g['two_d'], 'scale': g['scale'], 'plants': g['tags']}
+                'two_d': g['two_d'], 'scale': g['scale'], 'plants': g['tags'], 'form': g['form']}
         tags = ['random batch', 'N=1' if g['N'] == 1 else 'N>1',
                 'T=10..11' if g['T'] <= 11 else 'T<40' if g['T'] < 40 else 'T>=40',
                 'C=1' if g['C'] == 1 else 'C=2..7' if g['C'] < 8 else 'C>=8', g['dtype'],
@@ -429,7 +537,11 @@ def correspondence(ctx):
         tags += ['plant:' + t for t in g['tags']] + (['2-D input'] if g['two_d'] else [])
         tags.append('scale 1' if g['scale'] == 1 else 'scale 2^-25 (Volt-scale data)' if g['scale'] == 2.0 ** -25 else
                     'scale <= 2^-13' if g['scale'] < 1e-3 else 'scale >= 2^30' if g['scale'] > 1e6 else 'scale 1/4..1024')
-        _compare_batch(ctx, st, 'batch', desc, arr, call, g['kw'], g['k'], g['T'], g['dtype'], ans, tags, g['mscale'])
+        fm = g['form']
+        tags += ['layout ' + fm['layout'], 'spelling ' + fm['spelling']]
+        if g['kw']:
+            tags += ['fs as ' + fm['fs_type'], 'recovery_duration_ms as ' + fm['rd_type']]
+        _compare_batch(ctx, st, 'batch', desc, arr, call, g['kw'], g['k'], g['T'], g['dtype'], ans, tags, g['mscale'], fm)
     n_random_rows = st.rows
     # (b) exhaustive box: every single-channel waveform with samples in {-1, 0, 1} ----------------------
     import itertools
@@ -576,25 +688,28 @@ def _fmt_c(c):
     return f'{c!r} (= 2^{int(e)})' if e == int(e) else repr(c)
 
 
-def _scale_laws(arr, kw, df=None):
+def _scale_laws(arr, kw, df=None, form=None):
     """"Scaling the waveform by c > 0 scales all values and leaves all indices unchanged", for c over many decades (powers of
     two, so that the scaling itself is exact; factors that would leave the normal range of the dtype are skipped).
     Returns (c, description) for the first factor that breaks it, else None."""
     if df is None:
-        df, err = _features(arr, **kw)
+        df, err = _features(arr, _form=form, **kw)
         if df is None:
             return None
     N = arr.shape[0]
+    is_int = arr.dtype.kind == 'i'
     a = np.abs(_clean(arr))
     amax, amin = a.max(), (a[a > 0].min() if (a > 0).any() else 1.0)
     lim = 100 if arr.dtype == np.float32 else 900
     cols_i = [c for c in IDX_COLS if c in INT_COLS]
     cols_v = [c for c in IDX_COLS if c not in INT_COLS and c != 'invert_sign_peak']
     weak = None
-    for cfac in SCALE_FACTORS:
-        if not (amax * cfac < 2.0 ** lim and amin * cfac > 2.0 ** -lim):
+    for cfac in ([2, 3, 1024] if is_int else SCALE_FACTORS):
+        if is_int and amax * cfac > np.iinfo(arr.dtype).max:
+            continue                          # integer counts: integer factors that do not overflow the dtype
+        if not is_int and not (amax * cfac < 2.0 ** lim and amin * cfac > 2.0 ** -lim):
             continue
-        d2, e2 = _features(arr * arr.dtype.type(cfac), **kw)
+        d2, e2 = _features(arr * arr.dtype.type(cfac), _form=form, **kw)
         if d2 is None:
             return cfac, f'scaling the batch by c = {_fmt_c(cfac)} makes the extraction raise ({e2})'
         pow2 = math.log2(cfac) == int(math.log2(cfac))
@@ -602,8 +717,9 @@ def _scale_laws(arr, kw, df=None):
             r1, r2 = df.iloc[n], d2.iloc[n]
             bad = _same(r1, r2, cols_i) or _same(r1, r2, cols_v, cfac)
             if not bad and pow2:          # derived columns: ratio and durations invariant, slopes * c (exact for powers of two)
-                bad = (_same(r1, r2, ['peak_to_trough_ratio', 'peak_to_trough_ratio_log', 'peak_to_trough_duration', 'half_peak_duration'])
-                       or _same(r1, r2, SLOPE_COLS, cfac))
+                bad = _same(r1, r2, ['peak_to_trough_ratio', 'peak_to_trough_ratio_log', 'peak_to_trough_duration', 'half_peak_duration'])
+                if not bad and not (is_int and 2 * amax * cfac > np.iinfo(arr.dtype).max):   # (finding F22: integer slope numerators wrap)
+                    bad = _same(r1, r2, SLOPE_COLS, cfac)
             if bad and bad not in IDX_COLS and weak is None:
                 weak = (cfac, n, bad, r1, r2)          # a derived column only: keep looking for an index / value column
                 continue
@@ -621,31 +737,44 @@ def _scale_laws(arr, kw, df=None):
     return None
 
 
-def oracle(arr, kw, k, rng=None):
+def oracle(arr, kw, k, rng=None, form=None):
     """C14 on the real code for one batch (N, T, C).  None when every law holds, else a description."""
     arr = np.asarray(arr)
     N, T, C = arr.shape
     xs = [_clean(arr[n]) for n in range(N)]
     in_domain = not any(_first_sample_tie(x) for x in xs) and k < T
-    df, err = _features(arr, **kw)
+    df, err = _features(arr, _form=form, **kw)
     if not in_domain:
         return None                       # outside the property (the code raises there; compared by the correspondence only)
     if df is None:
         return f'feature extraction raised ({err}) although no waveform has its largest deflection on sample 0 and offset {k} < T = {T}'
     if len(df) != N:
         return f'{len(df)} rows for {N} waveforms'
+    if not _peak_traces_ok(arr, df):
+        return 'return_peak_channel=True: the returned traces are not the traces of the reported peak channels'
     for n in range(N):
         msg = _row_laws(xs[n], df.iloc[n], k, T)
         if msg:
             return f'waveform {n}: {msg}'
+    # the same values in the plain form (float64 for integer counts, C order, keywords, Python scalars) give the same features
+    if form not in (None, PLAIN_FORM) or arr.dtype.kind == 'i':
+        ref_arr = arr.astype(np.float64) if arr.dtype.kind == 'i' else arr
+        dr, er = _features(ref_arr, **kw)
+        if dr is None:
+            return f'the same values as a plain C-ordered {ref_arr.dtype} array with keyword arguments raise ({er})'
+        for n in range(N):
+            bad = _same(df.iloc[n], dr.iloc[n], IDX_COLS)
+            if bad:
+                return (f'waveform {n}: {bad} is {float(df.iloc[n][bad])!r} for the call form {form} on dtype {arr.dtype} and '
+                        f'{float(dr.iloc[n][bad])!r} for the same values as a plain C-ordered {ref_arr.dtype} array with keyword arguments')
     # scaling by c > 0, over many decades
-    sv = _scale_laws(arr, kw, df)
+    sv = _scale_laws(arr, kw, df, form)
     if sv:
         return sv[1]
     # batch independence
     if N > 1:
         for n in range(N):
-            d1, e1 = _features(arr[n:n + 1], **kw)
+            d1, e1 = _features(arr[n:n + 1], _form=form, **kw)
             if d1 is None:
                 return f'waveform {n} alone raises ({e1}) but not inside the batch'
             bad = _same(df.iloc[n], d1.iloc[0], IDX_COLS)
@@ -656,7 +785,7 @@ def oracle(arr, kw, k, rng=None):
         rng = rng or np.random.default_rng(0)
         for _ in range(2):
             perm = rng.permutation(C)
-            dp, ep = _features(arr[:, :, perm], **kw)
+            dp, ep = _features(arr[:, :, perm], _form=form, **kw)
             if dp is None:
                 return f'permuting the channels by {perm.tolist()} makes the extraction raise ({ep})'
             for n in range(N):
@@ -668,9 +797,9 @@ def oracle(arr, kw, k, rng=None):
     return None
 
 
-def _fails(arr, kw, k):
+def _fails(arr, kw, k, form=None):
     try:
-        return oracle(arr, kw, k)
+        return oracle(arr, kw, k, form=form)
     except Exception as e:
         return f'oracle raised {type(e).__name__}: {e}'
 
@@ -682,10 +811,10 @@ def _sev(msg):
     return 1 if any(f'changes {c} ' in msg for c in DER_COLS + ['peak_to_trough_ratio_log']) else 2
 
 
-def _shrink(arr, kw, k):
+def _shrink(arr, kw, k, form=None):
     """Greedy reduction of a failing batch (never to a weaker kind of failure): single waveform, fewer channels, shorter
     window, smaller numbers."""
-    msg = _fails(arr, kw, k)
+    msg = _fails(arr, kw, k, form)
     sev = _sev(msg)
     improved = True
     while improved:
@@ -699,13 +828,13 @@ def _shrink(arr, kw, k):
         if T > max(k + 1, 10):
             cands += [arr[:, 1:, :], arr[:, :-1, :]] + [np.delete(arr, t, axis=1) for t in range(1, T - 1)][:60]
         for cand in cands:
-            m2 = _fails(cand, kw, k)
+            m2 = _fails(cand, kw, k, form)
             if _sev(m2) >= sev:
                 arr, msg, improved = cand, m2, True
                 break
     for div in (1000, 100, 10, 4, 2):        # smaller magnitudes
         cand = (np.where(np.isnan(arr), np.nan, np.trunc(arr / div)) + 0.0).astype(arr.dtype)
-        m2 = _fails(cand, kw, k)
+        m2 = _fails(cand, kw, k, form)
         if _sev(m2) >= sev:
             arr, msg = cand, m2
     return arr, msg
@@ -722,9 +851,9 @@ def search(ctx, reasons):
     t_start = __import__('time').time()
     for j in range(len(cands) + n_extra):
         g = cands[j] if j < len(cands) else gen_batch(ctx.subrng(2, j), True)
-        msg = _fails(g['arr'], g['kw'], g['k'])
+        msg = _fails(g['arr'], g['kw'], g['k'], g['form'])
         if msg:
-            arr, msg = _shrink(g['arr'], g['kw'], g['k'])
+            arr, msg = _shrink(g['arr'], g['kw'], g['k'], g['form'])
             size = (-_sev(msg), arr.size)
             if best is None or size < best[0]:
                 best = (size, arr, g, msg)
@@ -738,9 +867,16 @@ def search(ctx, reasons):
     if not best:
         return None
     _, arr, g, msg = best
+    form = g['form']
+    for simpler in (PLAIN_FORM, dict(form, layout='C'), dict(form, spelling='keywords')):   # the plainest form that still fails
+        m2 = _fails(arr, g['kw'], g['k'], simpler)
+        if _sev(m2) >= _sev(msg):
+            form, msg = simpler, m2
+            break
+    g = dict(g, form=form)
     inp = {'arr_in (wav, time, trace)': [[[None if math.isnan(v) else v for v in row] for row in w] for w in arr.tolist()],
-           'dtype': str(arr.dtype), 'kwargs': g['kw'], 'idx_from_trough': g['k']}
-    sv = _scale_laws(arr, g['kw'])
+           'dtype': str(arr.dtype), 'kwargs': g['kw'], 'idx_from_trough': g['k'], 'form': g['form']}
+    sv = _scale_laws(arr, g['kw'], None, g['form'])
     if sv and sv[1] == msg:               # the broken law is the scaling law: name the factor
         inp['scale_factor_c'] = sv[0]
         inp['scale_factor_c_exact'] = _fmt_c(sv[0])
@@ -751,7 +887,8 @@ def search(ctx, reasons):
                         'within half the peak; recovery index = trough + offset, or T-1 beyond the end; scaling by c>0 scales values only; channel '
                         'permutation only permutes peak_trace_idx; features do not depend on the rest of the batch',
             'how': 'python: harness/props/c14.py oracle(np.array(arr_in, dtype), kwargs, idx_from_trough) -> '
-                   'ibldsp.waveforms.compute_spike_features(arr_in, **kwargs), and again on arr_in * c for c in SCALE_FACTORS '
+                   'ibldsp.waveforms.compute_spike_features in the call form `form` (dtype, memory layout, positional/keyword spelling, scalar types), '
+                   'and again on arr_in * c for c in SCALE_FACTORS '
                    '(scale_factor_c, when present, is the factor that breaks the scaling law)'}
 
 
@@ -759,13 +896,39 @@ def replay(ctx, rep):
     i = rep['input']
     arr = np.array([[[np.nan if v is None else v for v in row] for row in w] for w in i['arr_in (wav, time, trace)']],
                    dtype=np.dtype(i['dtype']))
-    r = _fails(arr, i['kwargs'], i['idx_from_trough'])
+    form = i.get('form')
+    r = _fails(arr, i['kwargs'], i['idx_from_trough'], form)
     print('oracle:', r)
     if r is None and i.get('scale_factor_c'):      # the recorded factor alone
         c = float(i['scale_factor_c'])
-        d1, _ = _features(arr, **i['kwargs'])
-        d2, _ = _features(arr * arr.dtype.type(c), **i['kwargs'])
+        d1, _ = _features(arr, _form=form, **i['kwargs'])
+        d2, _ = _features(arr * arr.dtype.type(c), _form=form, **i['kwargs'])
         if d1 is not None and (d2 is None or any(_same(d1.iloc[n], d2.iloc[n], [x for x in IDX_COLS if x in INT_COLS]) for n in range(len(d1)))):
             r = f'scaling by {c} changes an index'
             print('oracle:', r)
     return r is not None
+
+
+# ---------------------------------------------------------------------------------------------
+# known findings (integer-typed waveforms)
+# ---------------------------------------------------------------------------------------------
+def _demo_int_min():
+    """int16 counts with a saturated sample -32768: np.abs(-32768) overflows to -32768, the sample is not seen as the extremum."""
+    x = np.zeros((1, 12, 1), np.int16)
+    x[0, 5, 0], x[0, 7, 0] = -32768, 100
+    df, err = _features(x)
+    return bool(df is not None and int(df['peak_time_idx'].iloc[0]) != 5)
+
+
+def _demo_int16_slope():
+    """int16 counts, peak 30000 and tip -10000: peak_val - tip_val = 40000 wraps in int16, the depolarisation slope changes sign."""
+    x = np.zeros((1, 12, 1), np.int16)
+    x[0, 3, 0], x[0, 6, 0] = 10000, -30000
+    df, err = _features(x)
+    ref, _ = _features(x.astype(np.float64))
+    return bool(df is not None and ref is not None
+                and float(df['depolarisation_slope'].iloc[0]) != float(ref['depolarisation_slope'].iloc[0]))
+
+
+def known_findings(ctx):
+    return {'int-min-sample-abs-overflow': _demo_int_min, 'int16-slope-numerator-overflow': _demo_int16_slope}
